@@ -16,7 +16,7 @@
    CPython heap and is NOT a theorem: it is checked by the harness (weakref + gc.collect()). *)
 From Coq Require Import ZArith List Bool Sorted.
 Import ListNotations.
-From Urwid Require Import PyBase Signals SignalsProofs.
+From Urwid Require Import PyBase Signals SignalsProofs SignalsExtProofs.
 Open Scope Z_scope.
 
 (* --- each emit invokes every handler that stays connected throughout it exactly once, in
@@ -200,6 +200,184 @@ Theorem connection_order_preserved :
 Proof. intros fuel env o st Hi. exact (le_inv _ _ (run_op_le fuel env o st Hi)). Qed.
 Print Assumptions connection_order_preserved.
 
+(* ======================================================================================== *)
+(* --- registration, all hierarchies: a connect is accepted exactly when the name is registered
+       for the sender's own class (whatever classes exist, whatever was registered for its bases) --- *)
+Theorem connect_accepted_iff_registered :
+  forall fuel env s n cb ua ws us st,
+    (forall w, In w ws -> In w (st_reg st)) ->
+    (snd (run_op fuel env (OConnect s n cb ua ws us) st) = Done
+     <-> In n (sup_lookup (st_sup st) (sender_class env s))).
+Proof. exact connect_accepted_iff_proof. Qed.
+Print Assumptions connect_accepted_iff_registered.
+
+(* what the MetaSignals metaclass registers for the class statement at position [zlen pre] of any
+   sequence of class statements, with any bases / MROs: the `signals` of its body followed by
+   getattr(base, "signals", []) of each direct base, without duplicates - and nothing created
+   later (subclasses included) changes it *)
+Theorem metaclass_registration :
+  forall defs pre d post,
+    let cs_pre := fst (create_classes defs (MkCState [] [] []) 0 pre) in
+    sup_lookup (cs_sup (fst (create_classes defs (MkCState [] [] []) 0 (pre ++ d :: post)))) (zlen pre)
+    = if meta_stmt cs_pre d then meta_names defs cs_pre d else [].
+Proof. exact metaclass_registration_proof. Qed.
+Print Assumptions metaclass_registration.
+
+Theorem metaclass_registers_own_signals :
+  forall defs cs d n, In n (own_sig d) -> In n (meta_names defs cs d).
+Proof. exact own_signals_registered_proof. Qed.
+Print Assumptions metaclass_registers_own_signals.
+
+Theorem metaclass_registers_base_attribute :
+  forall defs cs d b n,
+    In b (c_bases d) -> In n (class_attr defs (cs_dicts cs) b) -> In n (meta_names defs cs d).
+Proof. exact base_attribute_registered_proof. Qed.
+Print Assumptions metaclass_registers_base_attribute.
+
+Theorem metaclass_registers_nothing_else :
+  forall defs cs d n,
+    In n (meta_names defs cs d) ->
+    In n (own_sig d) \/ exists b, In b (c_bases d) /\ In n (class_attr defs (cs_dicts cs) b).
+Proof. exact registered_names_come_from_proof. Qed.
+Print Assumptions metaclass_registers_nothing_else.
+
+(* The metaclass documents "register the list of signals in the class variable signals, including
+   signals in superclasses".  Read as "every name declared by a class of the MRO is registered",
+   that is FALSE of the code: getattr(base, "signals") only finds the first class of the base's MRO
+   that has the attribute.  Witness (replayed on the implementation by corpus/C14/
+   multiple_inheritance.json and by the repro script in the builder's report):
+     class A(metaclass=MetaSignals): signals = [0]      class B(metaclass=MetaSignals): signals = [1]
+     class C(A, B): pass        -> registered [0; 1]     class D(C): pass   -> registered [0] only.
+   By the code's own registration name 1 is NOT registered for D, so rejecting it is what the
+   property sentence demands; the defect is in what the metaclass registers, not in connect. *)
+Definition metaclass_inherits_every_declared_name_full : Prop :=
+  forall defs i d j dj n l,
+    nthz defs i = Some d -> In j (c_mro d) -> nthz defs j = Some dj -> c_sig dj = Some l -> In n l ->
+    c_meta dj = true ->
+    In n (sup_lookup (cs_sup (fst (create_classes defs (MkCState [] [] []) 0 defs))) i).
+
+Definition ex_abcd : list clsdef :=
+  [ MkCls [] [] true (Some [0]); MkCls [] [] true (Some [1]);
+    MkCls [0; 1] [0; 1] false None; MkCls [2] [2; 0; 1] false None ].
+
+Theorem metaclass_inherits_every_declared_name_refuted :
+  ~ metaclass_inherits_every_declared_name_full.
+Proof.
+  intro H.
+  specialize (H ex_abcd 3 (MkCls [2] [2; 0; 1] false None) 1 (MkCls [] [] true (Some [1])) 1 [1]
+                eq_refl (or_intror (or_intror (or_introl eq_refl))) eq_refl eq_refl (or_introl eq_refl) eq_refl).
+  vm_compute in H. destruct H as [H|H]; [discriminate | exact H].
+Qed.
+Print Assumptions metaclass_inherits_every_declared_name_refuted.
+
+Example abcd_registration :
+  let cs := fst (create_classes ex_abcd (MkCState [] [] []) 0 ex_abcd) in
+  map (sup_lookup (cs_sup cs)) [0; 1; 2; 3] = [[0]; [1]; [0; 1]; [0]].
+Proof. vm_compute. reflexivity. Qed.
+
+(* --- weak-argument death at ANY point, all interleavings: flatten the event tree of a whole
+       history (any operations, scripts, fuel, exceptions, explicit drops and gc.collect() anywhere,
+       also inside callbacks) into its calls and deaths in the order they happen; once [ADied o]
+       has occurred, no later call receives o.  Every call passes all weak arguments of its handler
+       ([call_passes_weak_arguments]), so no handler with a dead weak argument is ever called. --- *)
+Theorem no_call_after_weak_argument_death :
+  forall fuel env ops st l1 o l2 argv,
+    flats (snd (run_top fuel env ops st)) = l1 ++ ADied o :: l2 ->
+    In (ACall argv) l2 -> ~ In (VObj o) argv.
+Proof. exact no_call_after_death_proof. Qed.
+Print Assumptions no_call_after_weak_argument_death.
+
+Theorem no_call_with_object_dead_at_start :
+  forall fuel env ops st argv o,
+    In (ACall argv) (flats (snd (run_top fuel env ops st))) -> In o (st_dead st) -> ~ In (VObj o) argv.
+Proof. exact no_call_with_dead_object_proof. Qed.
+Print Assumptions no_call_with_object_dead_at_start.
+
+Theorem call_passes_weak_arguments :
+  forall h args w, In w (h_wargs h) -> In (VObj w) (argv_of h args).
+Proof. exact call_passes_weak_args. Qed.
+Print Assumptions call_passes_weak_arguments.
+
+(* the trace invariant itself, for every single operation (nested ones included) *)
+Theorem trace_safe_every_operation :
+  forall fuel env o st,
+    safe (st_dead st) (flats (snd (fst (run_op fuel env o st)))) /\
+    st_dead (fst (fst (run_op fuel env o st))) = dead_after (st_dead st) (flats (snd (fst (run_op fuel env o st)))).
+Proof. exact run_op_tr_ok. Qed.
+Print Assumptions trace_safe_every_operation.
+
+(* --- the widgets named by the property, as users of the machinery: exactly one emit per state
+       change.  [emit_once a c s n vargs ch]: the calls [ch] of that emit are a duplicate-free
+       subsequence of the handlers connected in [a] (its start), every one of them still connected
+       (with live weak arguments) in the later state [c] is called exactly once, and every call
+       gets weak args, user args, then [vargs] = (widget, value), then the deprecated user_arg. --- *)
+Theorem button_click_emits_once :
+  forall f env s n st st' evs,
+    Inv st -> run_op (S f) env (OClick s n) st = (st', evs, Done) ->
+    exists ch out,
+      evs = [EvWOp 0 s 0 [EvEmit s n [] ch out] 0] /\ emit_once st st' s n [VSelf s] ch.
+Proof. exact button_click_proof. Qed.
+Print Assumptions button_click_emits_once.
+
+Theorem checkbox_same_state_emits_nothing :
+  forall f env s nc np v st,
+    wstate st s = v -> run_op (S f) env (OSetState s nc np v) st = (st, [EvWOp 1 s v [] 0], Done).
+Proof. exact checkbox_unchanged_proof. Qed.
+Print Assumptions checkbox_same_state_emits_nothing.
+
+Theorem checkbox_state_change_emits_change_then_postchange_once :
+  forall f env s nc np v st st' evs,
+    Inv st -> wstate st s <> v ->
+    run_op (S f) env (OSetState s nc np v) st = (st', evs, Done) ->
+    exists st1 ch1 o1 ch2 o2,
+      evs = [EvWOp 1 s v [EvEmit s nc [v] ch1 o1; EvEmit s np [wstate st s] ch2 o2] 0] /\
+      emit_once st st' s nc [VSelf s; VInt v] ch1 /\
+      le st st1 /\ wstate (set_wstate st1 (wupdate (st_wstate st1) s v)) s = v /\
+      emit_once (set_wstate st1 (wupdate (st_wstate st1) s v)) st' s np [VSelf s; VInt (wstate st s)] ch2.
+Proof. exact checkbox_changed_proof. Qed.
+Print Assumptions checkbox_state_change_emits_change_then_postchange_once.
+
+Theorem edit_set_text_emits_change_then_postchange_once :
+  forall f env s nc np v st st' evs,
+    Inv st -> run_op (S f) env (OSetText s nc np v) st = (st', evs, Done) ->
+    exists st1 ch1 o1 ch2 o2,
+      evs = [EvWOp 2 s v [EvEmit s nc [v] ch1 o1; EvEmit s np [wstate st1 s] ch2 o2] 0] /\
+      emit_once st st' s nc [VSelf s; VInt v] ch1 /\
+      le st st1 /\
+      emit_once (set_wstate st1 (wupdate (st_wstate st1) s v)) st' s np [VSelf s; VInt (wstate st1 s)] ch2.
+Proof. exact edit_set_text_proof. Qed.
+Print Assumptions edit_set_text_emits_change_then_postchange_once.
+
+(* a handler connected before the widget method and still connected when its second emit starts
+   is in the snapshot of that emit (so the second [emit_once] covers it) *)
+Theorem connected_before_is_in_postchange_snapshot :
+  forall st st1 s v np h,
+    Inv st -> le st st1 -> In h (handlers st s np) ->
+    In (h_key h) (keys (set_wstate st1 (wupdate (st_wstate st1) s v)) s np) ->
+    In h (handlers (set_wstate st1 (wupdate (st_wstate st1) s v)) s np).
+Proof. exact connected_before_in_second_snapshot. Qed.
+Print Assumptions connected_before_is_in_postchange_snapshot.
+
+(* non-vacuity: a check box (sender 0, names 0 = change, 1 = postchange) whose 'change' handler
+   sets the state back re-entrantly; an edit-like sender *)
+Definition ex_wenv : envt :=
+  MkEnv [0] [] [ MkScript [] 0; MkScript [OSetState 0 0 1 0] 0 ] 100.
+Definition ex_wops : list op :=
+  [ ORegister 0 [0; 1];
+    OConnect 0 0 0 None [] [7];            (* change: plain handler *)
+    OConnect 0 1 0 (Some 5) [] [];         (* postchange: handler with the deprecated user_arg *)
+    OSetState 0 0 1 1;                     (* False -> True *)
+    OSetState 0 0 1 1;                     (* unchanged: nothing *)
+    OSetText 0 0 1 1 ].                    (* Edit semantics: emits although the text is the same *)
+
+Example widget_run_somewhere :
+  let '(st, evs) := run_top 3 ex_wenv ex_wops (init 0) in
+  (map (fun a => match a with ACall argv => argv | ADied _ => [] end) (flats evs), wstate st 0)
+  = ([ [VInt 7; VSelf 0; VInt 1]; [VSelf 0; VInt 0; VInt 5];
+       [VInt 7; VSelf 0; VInt 1]; [VSelf 0; VInt 1; VInt 5] ], 1).
+Proof. vm_compute. reflexivity. Qed.
+
+
 (* --- non-vacuity: a history with a handler that disconnects itself during the emit (the
        defect repaired by the snapshot fix: the next handler used to be skipped), a weakly
        referenced argument dropped by a later handler, and a second emit --- *)
@@ -247,3 +425,8 @@ Proof. split; [vm_compute; reflexivity|]. eexists _, _. split; vm_compute; refle
 Example out_of_fuel_somewhere :
   snd (run_op 0 ex_env (OEmit 0 0 []) (init 0)) = Raised (-3).
 Proof. reflexivity. Qed.
+
+Example death_trace_somewhere :
+  flats (snd (run_top 2 ex_env ex_ops (init 2)))
+  = [ ACall [VInt 10; VInt 7]; ACall [VObj 0; VInt 11; VInt 7]; ACall [VInt 7]; ADied 0; ACall [] ].
+Proof. vm_compute. reflexivity. Qed.
